@@ -213,22 +213,27 @@ def run(tier):
     ck.note("VmResult consumers found: %s" % sorted(consumers))
 
     # S3 ModuleExport finalisers
-    ck.rule("S3.export-finalisers", "functions wiring namespace objects treat every ModuleExport variant alike", floor=2)
+    ck.rule("S3.export-finalisers", "functions wiring namespace objects treat every ModuleExport variant alike", floor=1)
     fin = {}
     for f in fx.fns.values():
         sig = arm_signatures(fx, f, "value::ModuleExport")
         if sig:
             fin[f.path] = sig
     ck.note("ModuleExport consumers: %s" % sorted(fin))
-    builders = [p for p in fin if p.endswith(("finalize_module_exports", "execute_pending_module", "create_source_module_object"))]
-    ck.anchor(len(builders) >= 2, "export finalisers (found %s)" % sorted(builders))
-    builders.sort()
+    # every function that matches on ModuleExport to wire a namespace object is a finaliser (three copies on the pinned tree: entry
+    # module, provided dependency, internal source module); once they share one helper there is nothing left to disagree
+    builders = sorted(p for p in fin if p.startswith("interpreter::Interpreter::"))
+    ck.anchor(len(builders) >= 1, "export finalisers (found %s)" % sorted(builders))
+    if len(builders) == 1:
+        ck.instance("S3.export-finalisers", "%s (single implementation shared by all module roles)" % builders[0], F.short_span(fx.fns[builders[0]].span))
     for p in builders[1:]:
         compare_arms(ck, "S3.export-finalisers", builders[0], fin[builders[0]], p, fin[p], ignore=("W Interpreter.env", "M Interpreter."))
 
     # S3b operand roles: the finalisers key their lookups / definitions by the same parts of the export record
     import roles as R
-    ck.rule("S3b.export-roles", "the export finalisers use the same component of each ModuleExport (binding name vs export name) for every table access", floor=2)
+    ck.rule("S3b.export-roles", "the export finalisers use the same component of each ModuleExport (binding name vs export name) for every table access", floor=1)
+    if len(builders) == 1:
+        ck.instance("S3b.export-roles", "%s (single implementation)" % builders[0], F.short_span(fx.fns[builders[0]].span))
     role_sigs = {}
     for p in builders:
         f = fx.fns[p]
@@ -290,6 +295,16 @@ def run(tier):
         if dr:
             drains.append((f, dr))
     ck.anchor(bool(drains), "functions that drain Interpreter.exports into a namespace object")
+    # a finaliser may drain through a shared helper (`populate_module_namespace`): its callers are the ones that run the body
+    direct = {f.path for f, dr in drains}
+    for _ in range(2):
+        have = {g.path for g, _ in drains}
+        for p, f in sorted(fx.fns.items()):
+            if f.closure or not p.startswith("interpreter::Interpreter::") or p in have:
+                continue
+            via = [bi for bi, t in f.calls() if t[1].get("d") in have]
+            if via:
+                drains.append((f, via))
     exec_op = [p for p in fx.fns if p.endswith("BytecodeVM::execute_op")]
     reach = M.reachable_fns(fx, exec_op) if exec_op else set()
     runs_body = {p for p in fx.fns if p.endswith(("Interpreter::execute_program_bytecode", "Interpreter::run_bytecode", "BytecodeVM::run"))}
